@@ -15,7 +15,8 @@ EXTENDS Codec_Base64, TLC, Json
 
 CONSTANTS B3,        \* byte values used for 3-byte groups and longer inputs
           MaxLen,    \* longest input over B3
-          Emit       \* print replay cases
+          Emit,      \* print replay cases
+          CorruptLen \* corruptions are emitted for the texts of inputs of <= CorruptLen bytes over B3
 
 VARIABLES inp, pos, text, tpos, back, phase
 
@@ -68,6 +69,8 @@ SextetsAgree ==
         LET a == inp[1]  b == inp[2]  c == inp[3]  n == N24(a, b, c)
         IN S1(a) = T1(n) /\ S2(a, b) = T2(n) /\ S3(b, c) = T3(n) /\ S4(c) = T4(n)
 AlphaBijective == \A i \in 0..63 : Sextet(Alpha(i)) = i
+\* the sweep tables (Codec_Base64!EncCharAt / DecByteAt) are the position-wise definitions
+TablesAgree == (pos = 0 /\ Len(inp) = 3) => TablesAgreeOn(inp[1], inp[2], inp[3])
 EmitCase    == (Emit /\ pos = 0 /\ phase = "enc") => PrintT(<<"CASE", ToJson([in |-> inp])>>)
 
 \* Corruptions for the decoder: every position of the canonical text of every input over B3, replaced by a
@@ -79,7 +82,7 @@ ForeignReps == { <<45>>, <<95>>, <<32>>, <<10>>, <<13>>, <<0>>, <<127>>, <<42>>,
                  <<226, 132, 170>>, <<240, 159, 152, 128>> }
 Replace(t, p, r) == SubSeq(t, 1, p - 1) \o r \o SubSeq(t, p + 1, Len(t))
 EmitCorruptions ==
-    (Emit /\ phase = "dec" /\ tpos = 0 /\ inp \in UNION {[1..n -> B3] : n \in 1..MaxLen}) =>
+    (Emit /\ phase = "dec" /\ tpos = 0 /\ inp \in UNION {[1..n -> B3] : n \in 1..CorruptLen}) =>
         \A p \in 1..Len(text) : \A r \in ForeignReps :
             PrintT(<<"CASE", ToJson([txt |-> Replace(text, p, r)])>>)
 Terminates  == <>(phase = "done")
